@@ -74,10 +74,11 @@ def build_request(sx, prot, a, o):
     """element tree of <f><a/><o>...</o></f> whose leaf texts are the protocol's own text forms of the
     (symbolic) values; absent optional members are omitted"""
     T = lambda cls, v: prot.to_unicode(cls, v)
+    NIL = lambda name: el(sx, name, attrib={'{%s}nil' % XSI_NS: 'true'})          # an item that is null
     kids = [el(sx, 'n', T(Integer, o['n'])), el(sx, 's', o['s']), el(sx, 'b', T(Boolean, o['b'])),
             el(sx, 'inner', children=[el(sx, 'v', T(Integer, o['inner']['v'])), el(sx, 'w', o['inner']['w'])]),
-            el(sx, 'arr', children=[el(sx, 'integer', T(Integer, x)) for x in o['arr']])]
-    kids += [el(sx, 'many', T(Integer, x)) for x in o['many']]
+            el(sx, 'arr', children=[el(sx, 'integer', T(Integer, x)) if x is not None else NIL('integer') for x in o['arr']])]
+    kids += [el(sx, 'many', T(Integer, x)) if x is not None else NIL('many') for x in o['many']]
     kids.append(el(sx, 'tagged', attrib={'id': T(Integer, o['tagged']['id'])},
                    children=[el(sx, 'name', o['tagged']['name'])]))
     kids.append(el(sx, 'Alias', o['alias']))
@@ -95,6 +96,10 @@ def mk_values(sx):
          'many': [sx.int('many%d' % i, 0, 9) for i in range(nm)],
          'tagged': {'id': sx.int('tid', 0, 99), 'name': sx.text('tname', 1, alphabet='pq')},
          'alias': sx.text('alias', 1, alphabet='kl')}
+    # an item of either sequence may be null: it keeps its place (as an xsi:nil element) in both directions
+    hole = sx.choose('null_item', [None, ('arr', 0), ('arr', 1), ('many', 1)] if deep else [None, ('arr', 1)])
+    if hole is not None and len(o[hole[0]]) > hole[1]:
+        o[hole[0]][hole[1]] = None
     return sx.int('a', -99, 99), o
 
 
@@ -117,7 +122,7 @@ def matches(sx, got, o):
         else:
             if g is None or len(g) != len(o[key]):
                 return False
-            ok += [sx.eq(x, y) for x, y in zip(g, o[key])]      # arrays keep their order
+            ok += [(x is None) if y is None else sx.eq(x, y) for x, y in zip(g, o[key])]      # arrays keep their order
     return sx.And(*ok)
 
 
@@ -137,8 +142,8 @@ def decode_response(root, pname):
     arr = res.find(q('arr'))
     return {'n': txt(res, 'n'), 's': txt(res, 's'), 'b': txt(res, 'b'),
             'inner': None if inner is None else {'v': txt(inner, 'v'), 'w': txt(inner, 'w')},
-            'arr': None if arr is None else [c.text for c in arr],
-            'many': [c.text for c in res.findall(q('many'))],
+            'arr': None if arr is None else [None if c.get('{%s}nil' % XSI_NS) == 'true' else c.text for c in arr],
+            'many': [None if c.get('{%s}nil' % XSI_NS) == 'true' else c.text for c in res.findall(q('many'))],
             'tagged': None if tagged is None else {'id': tagged.get('id'), 'name': txt(tagged, 'name')},
             'alias': txt(res, 'Alias'), 'opt': txt(res, 'opt'),
             'order': [etree.QName(c).localname for c in res]}
@@ -156,7 +161,7 @@ FUNCS = ['spyne.protocol.xml.XmlDocument.deserialize', 'spyne.protocol.xml.XmlDo
          functions=FUNCS,
          bounds={'values': 'integer |n| <= 10^6 (thorough: 10^9), strings over {a b < & space} (2 chars; thorough: 3), boolean, nested object, wrapped '
                            'array and unwrapped repeated member of 0 or 2 ints (thorough: 0, 2 or 3), XML attribute, sub_name alias, absent '
-                           'optional member; all leaves symbolic',
+                           'optional member, one item of a sequence null (xsi:nil) or none; all leaves symbolic',
                  'symbolic part': 'request routing on a stub element tree; the response and the envelope are checked on '
                                   'every path witness through the real lxml pipeline'})
 def route_request(sx, p):
@@ -202,8 +207,8 @@ def route_request(sx, p):
     T = lambda cls, v: prot.to_unicode(cls, v)
     want = {'n': T(Integer, o['n']), 's': o['s'], 'b': T(Boolean, o['b']),
             'inner': {'v': T(Integer, o['inner']['v']), 'w': o['inner']['w']},
-            'arr': [T(Integer, x) for x in o['arr']] if o['arr'] else None,
-            'many': [T(Integer, x) for x in o['many']],
+            'arr': [None if x is None else T(Integer, x) for x in o['arr']] if o['arr'] else None,
+            'many': [None if x is None else T(Integer, x) for x in o['many']],
             'tagged': {'id': T(Integer, o['tagged']['id']), 'name': o['tagged']['name']},
             'alias': o['alias'], 'opt': None}
     order = resp.pop('order')
